@@ -253,3 +253,8 @@ def page_side(ck):
     ck.require(len(la) >= 2, "C19:TS:loader-uses-prompt-path", "page protocol (TS scan)",
                "loadAndRunSourceCode submits lines and RUN through start_evaluating",
                "loadAndRunSourceCode no longer loads programs through start_evaluating")
+
+
+def run_thorough(ck, F, E):
+    import clippy_xref
+    clippy_xref.cross_reference(ck, F, "C19", package="abasic-web", crate="abasic_web")
